@@ -731,6 +731,9 @@ func (runInfo *runInfoStruct) runSwitchStmt(stmt *ast.SwitchStmt) {
 		return
 	}
 	value := runInfo.rv
+	if value.Kind() == reflect.Interface && !value.IsNil() {
+		value = value.Elem()
+	}
 
 	for _, switchCaseStmt := range stmt.Cases {
 		caseStmt := switchCaseStmt.(*ast.SwitchCaseStmt)
@@ -739,6 +742,9 @@ func (runInfo *runInfoStruct) runSwitchStmt(stmt *ast.SwitchStmt) {
 			if runInfo.err != nil {
 				runInfo.env = env
 				return
+			}
+			if runInfo.rv.Kind() == reflect.Interface && !runInfo.rv.IsNil() {
+				runInfo.rv = runInfo.rv.Elem()
 			}
 			if equal(runInfo.rv, value) {
 				runInfo.stmt = caseStmt.Stmt
@@ -865,6 +871,9 @@ func (runInfo *runInfoStruct) runDeleteStmt(stmt *ast.DeleteStmt) {
 		if runInfo.err != nil {
 			return
 		}
+		if runInfo.rv.Kind() == reflect.Interface && !runInfo.rv.IsNil() {
+			runInfo.rv = runInfo.rv.Elem()
+		}
 	}
 
 	if item.Kind() == reflect.Interface && !item.IsNil() {
@@ -916,6 +925,9 @@ func (runInfo *runInfoStruct) runCloseStmt(stmt *ast.CloseStmt) {
 	runInfo.invokeExpr()
 	if runInfo.err != nil {
 		return
+	}
+	if runInfo.rv.Kind() == reflect.Interface && !runInfo.rv.IsNil() {
+		runInfo.rv = runInfo.rv.Elem()
 	}
 	if runInfo.rv.Kind() == reflect.Chan {
 		ch := runInfo.rv
